@@ -150,7 +150,7 @@ int main(int argc, char **argv) {
     auto scheds = read_scheds(arg_value(argc, argv, "--sched", nullptr));
     auto graphs = read_graphs(in);
     for (size_t i = (size_t) start; i < graphs.size(); i++) {
-        g_current_item = (long) i;
+        g_current_item = (long) i; set_crash_context(graphs[i].raw);
         const InGraph &g = graphs[i];
         for (auto &a : algos) for (auto &t : types) {
             bool approx = a.compare(0, 6, "approx") == 0;
